@@ -715,7 +715,9 @@ def oracle_c17(rep, scn, replay, obs, root, report):
                 elif r["prev"] != old:
                     report("dr-previous-path", i, old, r["prev"], f"{new} is recorded with previous path {r['prev']!r}, expected {old!r}")
             for p, r in recs.items():
-                if r["prev"] is not None and p not in ren.values():
+                # FILE records only: the property is about renamed / moved files.  What the tool's folder-rename detection
+                # writes on <directoryhash> records (e.g. a folder that became empty "renamed from" an empty file) is outside it
+                if r["prev"] is not None and p not in ren.values() and not r["dir"]:
                     report("dr-spurious-previous-path", i, None, [p, r["prev"]], "a file that was not renamed carries a previous path")
             for j in rnd.get("accept", []):
                 oj = obs[j]
